@@ -92,7 +92,14 @@ func (f *FBaseProcessor) Process(iprot, oprot *FProtocol) error {
 	if err := iprot.ReadMessageEnd(ctx); err != nil {
 		return err
 	}
-	ex := thrift.NewTApplicationException(APPLICATION_EXCEPTION_UNKNOWN_METHOD, "Unknown function "+name)
+	// The message begin already carries the full name; repeating a very long
+	// one in the message can push the reply over the output buffer's limit,
+	// and then the caller gets no reply at all.
+	shown := name
+	if len(shown) > 256 {
+		shown = shown[:256] + "..."
+	}
+	ex := thrift.NewTApplicationException(APPLICATION_EXCEPTION_UNKNOWN_METHOD, "Unknown function "+shown)
 	f.writeMu.Lock()
 	defer f.writeMu.Unlock()
 	if err := oprot.WriteResponseHeader(fctx); err != nil {
